@@ -115,7 +115,7 @@ class Trace:
         elif oi.op in ("chunk", "bufnext") and r and r[0] == "chunk":
             b, a, l = int(r[1]), int(r[2]), int(r[3])
             vals = [int(x) for x in r[4:]]
-            for k in range(a):
+            for k in range(max(a, len(vals))):
                 out.append((b + k, vals[k] if k < len(vals) else None, k < len(vals)))
         elif oi.op in LOOP_OPS:
             for (idx, val, _) in oi.visits:
